@@ -2,6 +2,7 @@
 mod c01;
 mod c10;
 mod c11;
+mod c12;
 mod codes;
 mod common;
 mod explore;
@@ -52,6 +53,7 @@ fn main() {
                 "C17" => t1props::run_c17(&ctx),
                 "C10" => c10::run(&ctx),
                 "C11" => c11::run(&ctx),
+                "C12" => c12::run(&ctx),
                 _ => {
                     eprintln!("unknown property {}", args[2]);
                     std::process::exit(2);
@@ -69,6 +71,8 @@ fn main() {
             println!("replaying {} (property {}, rule {})", h, v["property"], v["rule"]);
             let violated = if h.starts_with("c11.") {
                 c11::replay(&v)
+            } else if h.starts_with("c12.") {
+                c12::replay(&v)
             } else if h.starts_with("c10.") {
                 c10::replay(&v)
             } else if h == "c01.t1" {
